@@ -1227,6 +1227,9 @@ func (c *control) dirR(colon, at bool, params []any) {
 			}
 			return
 		}
+		if 3*len(cardinalTriples) < len(digits) {
+			slip.ErrorPanic(c.scope, 0, "number too large to print using the Radix directive at %d of %q", c.pos, c.str)
+		}
 		one := cardinalOne
 		teen := cardinalTeen
 		if colon {
